@@ -357,7 +357,7 @@ open MythVerif.Wsq (Elem Pid Holder retOpt)
 /-! ## x86-TSO machine: bounded exhaustive search with the fence positions as a parameter -/
 
 inductive Cmd where
-  | push (e : Elem) | pop | take
+  | push (e : Elem) | pop | take | put (e : Elem)
   deriving Repr
 
 structure Cfg where
@@ -370,6 +370,7 @@ def stoKey : Sto → List Int
   | .base v => [2, v]
   | .ptr i x => [3, i, (x.getD 0 : Nat), if x.isSome then 1 else 0]
   | .unlock => [4]
+  | .baseI v e => [5, v, e]
 
 def optKey (x : Option Elem) : List Int := [(x.getD 0 : Nat), if x.isSome then 1 else 0]
 
@@ -378,6 +379,8 @@ def opcKey : OPc → List Int
   | .pu2 e t => [5, e, t] | .pq => [6] | .po1 => [7] | .pof t => [8, t] | .po2 t => [9, t]
   | .po3 t x => [10, t, x] | .pol t => [11, t] | .po4 t => [12, t] | .po5 t x => [13, t, x]
   | .po5b t r => [14, t] ++ optKey r | .po6 r => 15 :: optKey r | .po7 => [16] | .po8 => [17] | .po9 => [18]
+  | .stuckL => [19] | .ptl e => [20, e] | .pt1 e => [21, e] | .pt6 e => [22, e] | .pt7 e b => [23, e, b]
+  | .pt8 e b => [24, e, b] | .pt9 => [25]
 
 def tpcKey : TPc → List Int
   | .idle => [0] | .tq0 => [1] | .tq1 t => [2, t] | .tkl => [3] | .tk1 => [4] | .tkf b => [5, b]
@@ -387,7 +390,7 @@ def lockKey : Holder → Int
   | .free => 0 | .owner => 1 | .thief p => 2 + p
 
 def cmdKey : Cmd → Int
-  | .push e => 100 + e | .pop => 1 | .take => 2
+  | .push e => 100 + 2 * e | .pop => 1 | .take => 2 | .put e => 101 + 2 * e
 
 /-- canonical key of the concrete part of a configuration (slots `0..size-1`, `k` participants) -/
 def Cfg.key (c : Cfg) : List Int :=
@@ -402,7 +405,7 @@ def Cfg.key (c : Cfg) : List Int :=
   (c.tscr.map (fun l => l.map cmdKey ++ [-8])).flatten
 
 def showLbl : Lbl → String
-  | .oPush e => s!"owner:call-push({e})" | .oPop => "owner:call-pop" | .o => "owner:step" | .flushO => "owner:FLUSH"
+  | .oPush e => s!"owner:call-push({e})" | .oPop => "owner:call-pop" | .oPut e => s!"owner:call-put({e})" | .o => "owner:step" | .flushO => "owner:FLUSH"
   | .tTake p => s!"thief{p}:call-take" | .t p => s!"thief{p}:step" | .flushT p => s!"thief{p}:FLUSH"
 
 /-- successors: (label, configuration) -/
@@ -414,6 +417,7 @@ def Cfg.succ (c : Cfg) : List (Lbl × Cfg) :=
       (match c.oscr with
        | .push e :: rest => (match step s (.oPush e) with | some s' => [(.oPush e, { c with s := s', oscr := rest })] | none => [])
        | .pop :: rest => (match step s .oPop with | some s' => [(.oPop, { c with s := s', oscr := rest })] | none => [])
+       | .put e :: rest => (match step s (.oPut e) with | some s' => [(.oPut e, { c with s := s', oscr := rest })] | none => [])
        | _ => [])
     | _ => (match step s .o with | some s' => [(.o, { c with s := s' })] | none => [])
   let fo : List (Lbl × Cfg) := match step s .flushO with | some s' => [(.flushO, { c with s := s' })] | none => []
@@ -434,7 +438,7 @@ def Cfg.succ (c : Cfg) : List (Lbl × Cfg) :=
     visited set.  Terminal = no successor except self-loops. -/
 def Cfg.done (c : Cfg) : Bool :=
   c.oscr.isEmpty && c.tscr.all (·.isEmpty) &&
-  (match c.s.opc with | .idle => true | .stuck => true | _ => false) &&
+  (match c.s.opc with | .idle => true | .stuck => true | .stuckL => true | _ => false) &&
   (List.range c.tscr.length).all (fun p => match c.s.tpc p with | .idle => true | _ => false) &&
   c.s.bufO.isEmpty && (List.range c.tscr.length).all (fun p => (c.s.bufT p).isEmpty)
 
@@ -477,6 +481,7 @@ def parseCmds (w : String) : List Cmd :=
     if x == "pop" then some Cmd.pop
     else if x == "take" then some Cmd.take
     else if x.startsWith "push" then (x.drop 4).toNat?.map Cmd.push
+    else if x.startsWith "put" then (x.drop 3).toNat?.map Cmd.put
     else none
 
 def parseCfg (w : String) : FenceCfg :=
